@@ -120,6 +120,11 @@ bool Exec<Cfg>::run_real(Op const& op) {
 							(void)ok2;
 						}
 					} else {
+						if constexpr(Cfg::fancy) {
+							// the value type of a view over a fancy pointer must live in storage of that pointer's default allocator
+							using DT = decltype(csv.decay());
+							if(!std::is_same_v<typename std::allocator_traits<typename DT::allocator_type>::pointer, P>) fail("PTR-decay-type", "decay() of a view over the fancy pointer yields an array over another pointer type (pointer_traits::default_allocator_type is not honoured)");
+						}
 						OpScope s;
 						if(op.var == 0) new(raw) Arr<D>(csv.decay());
 						else new(raw) Arr<D>(+csv);
@@ -277,7 +282,9 @@ bool Exec<Cfg>::run_real(Op const& op) {
 					case 0: dv = csv; break;
 					case 1: dv = std::move(sv); break;
 					case 2: dv = sv.element_moved(); break;
-					default: std::move(dv) = csv; break;
+					case 3: std::move(dv) = csv; break;
+					case 4: std::move(dv) = sv.element_moved(); break;
+					default: std::move(dv) = std::move(sv); break;
 					}
 				}
 			} break;
